@@ -37,7 +37,8 @@ def programs(ctx):
     for k, suf in enumerate(("_inv", "_not", "_n", "_b", "_buf", "_dup", "_0", "_1", "_tie", "_const")):
         nodes = [("a", "input", []), ("k0", "0", []), ("k1", "1", []), ("a" + suf, "and", ["a", "k1"], True), ("p", "or", ["a" + suf, "k0"], True), ("q", "xor", ["a", "k1", "k0"], True)]
         out.append((("benchrt", "suffix", suf), ("roundtrip", mkspec("suffix" + suf, nodes))))
-    for cid, spec in base + F.f_rand(ctx.seed + 5, 10 if ctx.quick else 60, consts=True):
+    const_rand = F.f_rand(ctx.seed + 5, 10 if ctx.quick else 60, consts=True)
+    for cid, spec in base + const_rand + F.reordered(const_rand + F.f_shape()):
         A = Net.from_spec(spec)
         if A.bbs or A.has_x() or not A.inputs():
             continue
